@@ -434,8 +434,12 @@ func familyLimiter(t *testing.T) {
 					vsleep(time.Duration(float64(gapExact)*factor) + 2*time.Microsecond)
 				}
 			case 1: // drain the bucket, then a stream at the limit: sustained admission at R per second
-				for i := 0; i < R+3 && i < 1200; i++ {
-					arrive()
+				for i := 0; i < R+3 && i < 1600; i++ {
+					// (a fresh instance holds one full burst: rateLimit verifications arriving at the same instant are all admitted)
+					if res := arrive(); res == "refuse" && i < R && sc%4 != 1 {
+						T.oracle("C19", "a burst within the configured rateLimit was refused on a fresh instance", M{"R": R, "arrival": i}, r.replay())
+						break
+					}
 				}
 				start := nowNs()
 				adm0 := len(admitted)
